@@ -103,7 +103,7 @@ class Program:
         return [g["name"] for g in it["generics"]]
 
     # ------------------------------------------------------------------ call graph
-    def callee_targets(self, f, binding=None):
+    def callee_targets(self, f, binding=None, opaque_traits=()):
         """Local function ids a call with callee dict `f` may dispatch to, with the callee-side binding.
         binding: {param_name: concrete type string} of the *caller*."""
         binding = binding or {}
@@ -146,6 +146,9 @@ class Program:
             self_arg = cargs[0] if cargs else None
             self_ty = subst(self_arg) if self_arg else None
             tid = f["id"]
+            if f["trait"] in opaque_traits and self_arg is not None and "param" in self_arg and self_ty is None:
+                # e.g. the base allocator: a different object whose state is not this arena's
+                return out
             if not f.get("local") and self_arg is not None and "param" in self_arg and self_ty is None:
                 # a foreign trait's method on a type parameter (Clone::clone on the base allocator, FnMut on a
                 # closure parameter, ...): user code, not a local function
@@ -192,14 +195,14 @@ class Program:
                         out += self.drop_targets(fd["ty"], seen)
         return out
 
-    def out_edges(self, fid, binding=None):
+    def out_edges(self, fid, binding=None, opaque_traits=()):
         """[(target_fid, target_binding, kind, site)] for a body."""
         b = self.body(fid)
         if b is None:
             return []
         out = []
         for site, t in b.calls():
-            for tid, rb in self.callee_targets(t["f"], binding):
+            for tid, rb in self.callee_targets(t["f"], binding, opaque_traits):
                 out.append((tid, rb, "call", site))
             # closures / fn items passed as arguments are assumed callable by the callee
             for a in t["args"]:
@@ -224,7 +227,7 @@ class Program:
                 out.append((tid, {}, "drop", site))
         return out
 
-    def reach_fns(self, roots, binding_aware=False, stop=lambda fid: False, edge_filter=None):
+    def reach_fns(self, roots, binding_aware=False, stop=lambda fid: False, edge_filter=None, opaque_traits=()):
         """BFS over the call graph. roots: [(fid, binding)] or [fid]. Returns {state: parent_state} where
         state = (fid, frozen binding) (binding empty when not binding_aware)."""
         parents = {}
@@ -243,7 +246,7 @@ class Program:
             fid, fb = st
             if stop(fid):
                 continue
-            for tid, rb, kind, site in self.out_edges(fid, dict(fb) if binding_aware else None):
+            for tid, rb, kind, site in self.out_edges(fid, dict(fb) if binding_aware else None, opaque_traits):
                 if edge_filter and not edge_filter(fid, tid, kind, site):
                     continue
                 ns = (tid, frozenset(rb.items()) if binding_aware else frozenset())
